@@ -1,6 +1,7 @@
 package c14
 
 import (
+	"github.com/nspcc-dev/neo-go/pkg/vm/opcode"
 	"fmt"
 	"os"
 	"testing"
@@ -40,9 +41,9 @@ func TestCount(t *testing.T) {
 		t.Skip()
 	}
 	for _, th := range []bool{false, true} {
-		for _, fr := range []*frame{frameI(th), frameC(th), frameS(th)} {
+		for _, fr := range []*frame{frameI(th), frameC(th), frameS(th), frameN(th), frameL(th)} {
 			for n := 1; n <= 4; n++ {
-				if n == 4 && (th || fr.name != "I") {
+				if n == 4 {
 					continue
 				}
 				tops := map[int]int{}
@@ -112,4 +113,34 @@ func TestGoAcceptsX(t *testing.T) {
 	defer cleanup()
 	_, err := goSide(dir, p)
 	fmt.Println("functions:", len(p.Fns), "error:", err)
+}
+
+// TestDis prints the instructions of the contract compiled from C14_DIS (a file like C14_PROBE's).
+func TestDis(t *testing.T) {
+	path := os.Getenv("C14_DIS")
+	if path == "" {
+		t.Skip()
+	}
+	setupEnv()
+	src, _ := os.ReadFile(path)
+	p, err := progFromSource("dis", string(src))
+	if err != nil {
+		t.Fatal(err)
+	}
+	dir, cleanup := vkScratch()
+	defer cleanup()
+	c, err := neoCompile(dir, p)
+	if err != nil {
+		t.Fatal(err)
+	}
+	starts := map[int]string{}
+	for i := range c.di.Methods {
+		starts[int(c.di.Methods[i].Range.Start)] = c.di.Methods[i].ID
+	}
+	forEachInstr(c.script, func(ip int, op opcode.Opcode, param []byte) {
+		if n, ok := starts[ip]; ok {
+			fmt.Println("---", n)
+		}
+		fmt.Printf("%5d %-10s %x\n", ip, op, param)
+	})
 }
